@@ -113,7 +113,9 @@ def mutate(r, g, insts, per_class=2):
                           with_toks(["(", "BASE", "(", "1", ")", "EXTRA", "(", ".PURPLE.", ")", "LEFTY", "(", "'l'", ")", ")"]), iid, False))
         dup = {"id": iid, "complex": False, "parts": [("ITEM", [("str", "dup")])], "toks": ["ITEM", "(", "'dup'", ")"], "dup": True}
         cands.append(("duplicate_id", "#%d twice" % iid, insts + [dup], None, False))
-        cands.append(("unterminated_instance", "missing );", with_toks(toks[:-1], noterm=True), iid, True))
+        # an own class when the last parameter is $ (the reader treats what follows a $ separately)
+        cands.append(("unterminated_after_null" if len(toks) >= 2 and toks[-2] == "$" else "unterminated_instance", "missing );",
+                      with_toks(toks[:-1], noterm=True), iid, True))
         for k, t in enumerate(toks):
             if t.startswith("'") and len(t) >= 2:
                 cands.append(("unterminated_string", "missing closing quote", with_toks(toks[:k] + [t[:-1]] + toks[k + 1:]), iid, True))
@@ -150,7 +152,7 @@ def dump_map(txt):
 def main(tier, seed):
     res = Result(PID, tier, seed)
     try:
-        translate.run_all()
+        translate.run_all(PID)
     except translate.AnchorLost as e:
         res.violation("translator lost its anchor: %s" % e, {"theorem_or_correspondence": "tools/translate.py"}, found_input=False)
     pr = coq_prove(PID)
